@@ -238,6 +238,16 @@ func runMailboxScenario(sc *mbScenario, schedule []mbStep, seed int64) *mbRun {
 	_ = drifted
 	// 2. finish with the seeded random scheduler
 	rng := rand.New(rand.NewSource(seed))
+	// two scheduling disciplines: uniform random choice, or (PCT style) random thread priorities with a few
+	// priority change points, which produces the "one thread runs to completion first" schedules that
+	// uniform choice almost never does
+	usePrio := seed%2 == 0
+	prio := map[string]int{}
+	changeAt := map[int]bool{}
+	for k := 0; k < 3; k++ {
+		changeAt[rng.Intn(60)] = true
+	}
+	rsteps := 0
 	for {
 		ws := c.Waiters()
 		if len(ws) == 0 {
@@ -251,6 +261,24 @@ func runMailboxScenario(sc *mbScenario, schedule []mbStep, seed int64) *mbRun {
 			}
 		}
 		w := ws[rng.Intn(len(ws))]
+		if usePrio {
+			rsteps++
+			best := -1
+			for _, cand := range ws {
+				pr, ok := prio[cand.Role]
+				if !ok {
+					pr = rng.Intn(1000)
+					prio[cand.Role] = pr
+				}
+				if pr > best {
+					best = pr
+					w = cand
+				}
+			}
+			if changeAt[rsteps] {
+				prio[w.Role] = -rsteps // demote the running thread below everybody
+			}
+		}
 		if !callersLeft {
 			x.mu.Lock()
 			n := x.sinceIn[w.Role]
